@@ -415,12 +415,17 @@ pub fn generate(tier: &str, seed: u64, out: &mut Out) {
                     let k = lines.iter().zip(&want).position(|(a, b)| a != b).unwrap_or(lines.len().min(want.len()));
                     out.fail("", &format!("bytes [{}]", hex(&data)), &format!("line {k}: decoder gives {:?}, per-line lossy conversion gives {:?} ({} vs {} lines)", lines.get(k), want.get(k), lines.len(), want.len()));
                 }
-                // lines without an injected byte are exactly the original lines
-                let orig: Vec<String> = clean[skip..].split_inclusive(|b| *b == b'\n').map(|l| String::from_utf8_lossy(l).trim_end().to_string()).collect();
-                let same_count = lines.iter().filter(|l| !l.contains('\u{fffd}')).filter(|l| orig.contains(l)).count();
-                let clean_lines = lines.iter().filter(|l| !l.contains('\u{fffd}')).count();
-                if same_count != clean_lines && !text.contains('\u{fffd}') {
-                    out.fail("", &format!("bytes [{}]", hex(&data)), "a line without U+FFFD differs from every original line: damage spread beyond the line of the invalid byte");
+                // locality: a line whose raw bytes were not touched decodes as in the clean stream
+                if let Ok(Ok(clean_lines)) = lines_via(std::io::Cursor::new(&clean[..])) {
+                    let raw_c: Vec<&[u8]> = clean[skip..].split_inclusive(|b| *b == b'\n').collect();
+                    let raw_d: Vec<&[u8]> = data[skip..].split_inclusive(|b| *b == b'\n').collect();
+                    if raw_c.len() == raw_d.len() && clean_lines.len() == raw_c.len() && lines.len() == raw_d.len() {
+                        for k in 0..raw_c.len() {
+                            if raw_c[k] == raw_d[k] && lines[k] != clean_lines[k] {
+                                out.fail("", &format!("bytes [{}]", hex(&data)), &format!("line {k} has no injected byte but decodes to {:?} instead of {:?}", lines[k], clean_lines[k]));
+                            }
+                        }
+                    }
                 }
             }
             Ok(Err(e)) => out.fail("", &format!("bytes [{}]", hex(&data)), &format!("line decoder failed with {:?} on an in-memory buffer", e.kind())),
